@@ -293,6 +293,160 @@ def route_cycle(d, hmax, remote):
     d.reach()
 
 
+def _raw(lan, stn):
+    node = Node(Address(stn), lan)
+    top = Client()
+    bind(top, node)
+    top.got = []
+    top.confirmation = lambda pdu: top.got.append(pdu)
+    return top
+
+
+CACHES = {
+    # what the router knows about networks 20 and 21 beyond its own ports; "o1"/"o2" = the first / second port other than
+    # the arrival port (a conforming station sends a packet to a router only for networks that router offered on the
+    # station's network, and a router never offers a path that leads back: the arrival port is therefore not among them)
+    "empty": {},
+    "20-via-o1": {20: ("o1", 50)},
+    "20-via-o2,21-via-o1": {20: ("o2", 50), 21: ("o1", 51)},
+    "20,21-same-router": {20: ("o1", 50), 21: ("o1", 50)},
+}
+
+
+@meta(bounds="ONE forwarding step of a real three-port router (networks 1, 2, 3) from a chosen state of its routing cache: "
+             "an arbitrary application-layer NPDU built octet by octet - priority and expecting-reply bits, no DADR / remote "
+             "station / remote broadcast / global broadcast, destination network in {arrival network, another port, known via "
+             "a neighbour router, unknown}, 1-octet destination MAC, no SADR / SADR of an unknown remote network / SADR "
+             "claiming a directly connected network, hop count 0..255 - all symbolic, arrives on a symbolic port from station "
+             "99; every frame the router then puts on its three networks is parsed by the independent decoder and compared "
+             "with the forwarding rule of clause 6.5: nothing onto the arrival network, nothing with hop count 0, one copy on "
+             "exactly the right port(s) addressed to the right MAC, hop count lowered by one, DNET/DADR dropped on the last "
+             "leg, SNET/SADR supplied on the first hop and preserved afterwards, priority/expecting-reply/payload untouched; "
+             "then a reply toward the shown SADR network, arriving on another port, must go to station 99 on the first port",
+      outside="network-layer messages carrying a DADR; MAC addresses longer than one octet; packets addressed to the router "
+              "itself (its own application); "
+              "cache states in which the destination is reached through the arrival port (not reachable when every router "
+              "offers only paths that lead away from the asking network, checked by route_scn)",
+      assumes=["the destination is not reached through the arrival port (see 'outside')", "destination MAC != the router's"],
+      stubs=STUBS)
+def route_step(d, cache):
+    w = World()
+    lans = {n: LogNet(n) for n in (1, 2, 3)}
+    r = Router([1, 2, 3], lans, 10)
+    a = d.pick([1, 2, 3], 'arrival_port')
+    others = [n for n in (1, 2, 3) if n != a]
+    via = {}
+    for dnet, (o, mac) in CACHES[cache].items():
+        snet = others[0] if o == "o1" else others[1]
+        via[dnet] = (snet, mac)
+        r.nsap.update_router_references(snet, Address(mac), [dnet])
+    src = _raw(lans[a], 99)
+    sinks = {n: _raw(lans[n], 77) for n in (1, 2, 3)}
+
+    prio = d.int(0, 3, 'priority')
+    der = d.bool('expecting_reply')
+    dk = d.pick(["none", "station", "remote-broadcast", "global"], 'dadr_kind')
+    sk = d.pick(["none", "remote", "spoof"], 'sadr_kind')
+    hop = d.int(0, 255, 'hop_count')
+    body = bytes([0x10, 0x08]) + bytes(d.bytes(1, 1, 'payload'))
+    control = prio + (4 if der else 0)
+    hdr = b""
+    dnet = dmac = None
+    if dk != "none":
+        control += 0x20
+        if dk == "global":
+            dnet = 0xFFFF
+            hdr += bytes([0xFF, 0xFF, 0])
+        else:
+            dnet = d.pick([a, others[0], others[1], 20, 21, 22], 'dnet')
+            if dk == "station":
+                dmac = d.int(1, 254, 'dmac')
+                # MAC 10 is the router itself on each of its ports; a packet addressed to the router is for its own
+                # application, which this step does not model
+                d.assume(dmac != 10)
+                hdr += bytes([dnet >> 8, dnet & 255, 1, dmac])
+            else:
+                hdr += bytes([dnet >> 8, dnet & 255, 0])
+    snet = smac = None
+    if sk != "none":
+        control += 0x08
+        snet = 30 if sk == "remote" else d.pick([1, 2, 3], 'spoofed_snet')
+        smac = d.int(1, 254, 'smac')
+        hdr += bytes([snet >> 8, snet & 255, 1, smac])
+    if dk != "none":
+        hdr += bytes([hop])
+    frame = bytes([1, control]) + hdr + body
+    dest = d.pick(["to-router", "broadcast"], 'mac_destination')
+    src.request(PDU(frame, destination=Address(10) if dest == "to-router" else LocalBroadcast()))
+    w.run()
+
+    # reference forwarding rule
+    want = {}       # port -> (mac destination or None for broadcast, expected header fields)
+    shown_snet, shown_smac = (snet, smac) if sk == "remote" else (a, 99)
+    if sk == "spoof" or dk == "none" or dnet == a:
+        pass
+    elif dk == "global":
+        for n in others:
+            want[n] = (None, 0xFFFF, b"")
+    elif dnet in (1, 2, 3):
+        want[dnet] = (dmac, None, None)
+    elif dnet in via:
+        want[via[dnet][0]] = (via[dnet][1], dnet, bytes([dmac]) if dk == "station" else b"")
+    for n in (1, 2, 3):
+        data_frames = []
+        for (s_, dd, data) in lans[n].frames:
+            if s_ == Address(99) and n == a:
+                continue
+            np_ = wire.parse_npdu(data)
+            if np_["net_msg"]:
+                if n == a:
+                    raise Violation("step-emits-on-arrival-network", net=n, msg_type=np_["msg_type"], dadr_kind=dk, sadr_kind=sk)
+                continue
+            data_frames.append((dd, np_))
+        expected = 1 if (n in want and hop > 0) else 0
+        if len(data_frames) != expected:
+            raise Violation("step-frames-on-port", port=n, arrival=a, got=len(data_frames), want=expected, dadr_kind=dk,
+                            sadr_kind=sk, dnet=dnet, hop_is_zero=bool(hop == 0), cache=cache)
+        for dd, np_ in data_frames:
+            mac, wdnet, wdadr = want[n]
+            if mac is None:
+                if dd.addrType != Address.localBroadcastAddr:
+                    raise Violation("step-mac-destination", port=n, got=str(dd), want="broadcast")
+            elif dd != Address(mac):
+                raise Violation("step-mac-destination", port=n, got=str(dd), want=mac)
+            if np_["dnet"] != wdnet or (wdnet is not None and np_["dadr"] != wdadr):
+                raise Violation("step-dnet", port=n, got=[np_["dnet"], np_["dadr"].hex() if np_["dadr"] is not None else None],
+                                want=[wdnet, wdadr.hex() if wdadr is not None else None])
+            if wdnet is not None and np_["hops"] != hop - 1:
+                raise Violation("step-hop-count", port=n, got=np_["hops"], injected=int(hop))
+            if np_["snet"] != shown_snet or np_["sadr"] != bytes([shown_smac]):
+                raise Violation("step-source", port=n, got=[np_["snet"], np_["sadr"].hex() if np_["sadr"] is not None else None],
+                                want=[shown_snet, shown_smac])
+            if np_["priority"] != prio or np_["expecting_reply"] != bool(der) or np_["payload"] != body:
+                raise Violation("step-content-altered", port=n)
+    d.reach()
+
+    # a reply to the network shown as source goes back through the arrival port to station 99
+    if sk == "remote":
+        for lan in lans.values():
+            lan.frames = []
+        b = others[0]
+        back = _raw(lans[b], 98)
+        reply = bytes([1, 0x20, 0, 30, 1, smac, 255, 0x10, 0x08, 0x5A])
+        back.request(PDU(reply, destination=Address(10)))
+        w.run()
+        for n in (1, 2, 3):
+            got = [(dd, wire.parse_npdu(data)) for (s_, dd, data) in lans[n].frames
+                   if not (n == b and s_ == Address(98))]
+            got = [(dd, np_) for dd, np_ in got if not np_["net_msg"]]
+            expected = 1 if n == a else 0
+            if len(got) != expected:
+                raise Violation("step-reply-frames-on-port", port=n, arrival=a, got=len(got), want=expected)
+            for dd, np_ in got:
+                if dd != Address(99) or np_["dnet"] != 30 or np_["dadr"] != bytes([smac]) or np_["hops"] != 254:
+                    raise Violation("step-reply-misdirected", got=str(dd), dnet=np_["dnet"])
+
+
 def instances(tier):
     q = tier == "quick"
     out = []
@@ -311,6 +465,8 @@ def instances(tier):
     for t in (["pair", "line3"] if q else list(TOPO)):
         out.append(Inst(route_scn, dict(topo=t, warm=False, knows_net=False, announce=True), budget=80 if q else 900,
                         path_timeout=90, label="%s,cold,learns-net" % t))
+    for c in CACHES:
+        out.append(Inst(route_step, dict(cache=c), budget=300 if q else 900, path_timeout=60, label=c))
     out.append(Inst(route_cycle, dict(hmax=3 if q else 6, remote=False), budget=80 if q else 300))
     out.append(Inst(route_cycle, dict(hmax=3 if q else 6, remote=True), budget=80 if q else 300))
     return out
